@@ -15,18 +15,19 @@ Feed == ndJsonDeserialize(IOEnv.FEED)
 Opt(ev) == [comments |-> ev.o.comments, nan |-> ev.o.nan, inf |-> ev.o.inf, unicode |-> ev.o.unicode]
 
 \* successive calls on one stream: each call starts where the previous one stopped
-RECURSIVE Session(_, _, _, _)
-Session(inp, o, lim, calls) ==
+\* (with the same filter at every call: what a filter discards is consumed all the same)
+RECURSIVE Session(_, _, _, _, _)
+Session(inp, o, lim, calls, f) ==
   IF calls = 0 THEN <<>>
-  ELSE LET r == DeserializeJson(inp, o, lim, TrueV) IN
+  ELSE LET r == DeserializeJson(inp, o, lim, f) IN
        <<[code |-> r.code, v |-> r.v, read |-> r.read]>>
        \o (IF r.code = "Ok" /\ r.read < Len(inp)
-           THEN Session(SubSeq(inp, r.read + 1, Len(inp)), o, lim, calls - 1) ELSE <<>>)
+           THEN Session(SubSeq(inp, r.read + 1, Len(inp)), o, lim, calls - 1, f) ELSE <<>>)
 
 Emit(ev) ==
   IF "session" \in DOMAIN ev
-  THEN PrintT(<<"CASE", ToJson([session |-> Session(ev.inp, Opt(ev), ev.lim, ev.session), inp |-> ev.inp,
-                                lim |-> ev.lim, o |-> ev.o, tag |-> ev.tag])>>)
+  THEN PrintT(<<"CASE", ToJson([session |-> Session(ev.inp, Opt(ev), ev.lim, ev.session, ev.f), inp |-> ev.inp,
+                                lim |-> ev.lim, f |-> ev.f, o |-> ev.o, tag |-> ev.tag])>>)
   ELSE LET r == DeserializeJson(ev.inp, Opt(ev), ev.lim, ev.f)
            u == DeserializeJson(ev.inp, Opt(ev), ev.lim, TrueV) IN
        PrintT(<<"CASE", ToJson([inp |-> ev.inp, lim |-> ev.lim, f |-> ev.f, o |-> ev.o, code |-> r.code,
